@@ -67,13 +67,14 @@ def op_lists(draw):
     n = draw(st.integers(8, 45))
     ops = []
     for _ in range(n):
-        kind = draw(st.sampled_from(["step"] * 8 + ["reset", "seed_reset"]))
+        kind = draw(st.sampled_from(["step"] * 8 + ["reset", "seed_reset", "seed_method"]))
         if kind == "step":
             ops.append(("step", draw(st.sampled_from(["legal"] * 5 + ["raw", "illegal", "legal"])), draw(st.integers(0, 2**20))))
         elif kind == "reset":
             ops.append(("reset", None, 0))
         else:
-            ops.append(("seed_reset", None, draw(SEEDS)))
+            # seed_reset: reset(seed=s); seed_method: the adapter's seed(s) method followed by a plain reset()
+            ops.append((kind, None, draw(SEEDS)))
     return ops
 
 
@@ -171,6 +172,11 @@ def run_gym(ctx, b, seed, ops, fail, aggs=None, concrete=None):
                 played.append(["seed_reset", int(op[2])])
                 obs, info = g.reset(seed=int(op[2]))
                 sh.seed(int(op[2]))
+            elif kind == "seed_method":
+                played.append(["seed_method", int(op[2])])
+                g.seed(int(op[2]))
+                obs, info = g.reset()
+                sh.seed(int(op[2]))
             else:
                 played.append(["reset", None])
                 obs, info = g.reset()
@@ -258,7 +264,7 @@ def run_dm(ctx, b, seed, ops, fail, concrete=None):
             ts = sh.step(a)
             cmp(dts, ts, f"op {i} step", False)
             saw_last = saw_last or int(ts.step_type) == episodes.LAST
-        elif op[0] == "seed_reset":
+        elif op[0] in ("seed_reset", "seed_method"):   # dm_env has no re-seeding API: a new adapter either way
             played.append(["seed_reset", int(op[2])])
             d_env = make(int(op[2]))
             sh.seed(int(op[2]))
@@ -323,7 +329,7 @@ def run_m2s(ctx, b, seed, ops, fail, aggs, concrete=None):
             s, ts = s2, ts2
             saw_last = saw_last or int(ts.step_type) == episodes.LAST
         else:
-            sd = int(op[2]) if op[0] == "seed_reset" else i
+            sd = int(op[2]) if op[0] in ("seed_reset", "seed_method") else i
             played.append(["seed_reset", sd])
             key = jax.random.PRNGKey(sd)
             s, ts = b.reset(key)
@@ -422,7 +428,7 @@ def replay(case):
         def fail(oracle, sig, msg):
             ctx.fail(oracle, env, sig, msg, case)
 
-        concrete = [(o[0], o[1], o[1] if o[0] == "seed_reset" else 0) for o in case["ops"]]
+        concrete = [(o[0], o[1], o[1] if o[0] in ("seed_reset", "seed_method") else 0) for o in case["ops"]]
         aggs = tuple(case["aggs"]) if case.get("aggs") else None
         _run(ctx, b, case["adapter"], case["seed"], None, fail, aggs, concrete=concrete)
     return list(ctx.failures.values())
